@@ -101,6 +101,29 @@ def run(chk):
             why = "NewParagraphReader and NewDecoder disagree"
         if why:
             chk.violate({"kind": "property", "case": lib.show_case(c), "oracle": oracle[:300], "impl": im[:600], "decoder": dec, "explanation": why})
+    # one keyring variable whose contents are replaced in place between reads (same pointer, same length or not): every
+    # read answers for the keyring as it is then - a verified signer is never remembered from an earlier keyring
+    single = {}
+    for c, (oracle, im, dec) in zip(cases, o3):
+        single[(c[1][0], c[1][1])] = im
+    sc, sw = [], []
+    pairs = [(k, s) for (k, t), s in zip(docs, signed)][:chk.n(12, 60)]
+    for k, s in pairs:
+        other = (k + 1) % 3
+        for seq in ([str(k), str(other), str(k)], [str(other), str(k), str(other)], [str(k) + str(other), str(other) + str(k), "e", str(k)],
+                    [str(k), "e", str(other)]):
+            args = []
+            for kr in seq:
+                args += [kr.encode(), s]
+            if all((kr.encode(), s) in single for kr in seq):
+                sc.append(("csseq", args))
+                sw.append("[ " + " ".join(("( " + single[(kr.encode(), s)] + " )") if single[(kr.encode(), s)].startswith("ok signer") else single[(kr.encode(), s)] for kr in seq) + " ]")
+    si = chk.run_impl(sc)
+    chk.record("keyring-replaced-in-place", sc, si, lambda c, r: "ok signer" in r)
+    for c, got, want in zip(sc, si, sw):
+        if got != want:
+            chk.violate({"kind": "property", "case": lib.show_case(("csseq", [x if len(x) < 40 else b"<signed document>" for x in c[1]])), "impl": got[:900], "expected": want[:900],
+                         "explanation": "a read through a keyring variable whose contents were replaced gives another outcome than the same read with a fresh keyring of those contents"})
     # sanity of the streams: the unmodified signed documents must be accepted with their signer's keyring
     good = sum(1 for t, (o, im, d) in zip(tags, o3) if t == "keyrings" and im.startswith("ok signer=x"))
     if good == 0:
